@@ -133,6 +133,9 @@ def make(spec):
         freqs[:, 1, 1] = freqs[:, 1, 0]
     weights = D.weights_for(nq, spec.get("weights", "increasing"))
     qcoords = [(0.0, 0.0, 0.0)] + [(round(0.1 * q, 4), round(0.05 * q, 4), 0.5) for q in range(1, nq)]
+    if spec.get("qlabels") == "collide" and nq >= 3:
+        # coordinates printed with few digits: the last two q-points carry the SAME coordinate label (and different weights)
+        qcoords[nq - 1] = qcoords[nq - 2]
     energies = bm3_energy(vols)
     system = spec.get("system") or "triclinic"
     compset = spec.get("compset", "minimal")
@@ -163,7 +166,7 @@ def make(spec):
                                7.7 * xx ** 0.34 * (1 + 0.05 * (xx - 1))], axis=1)
         lattice[:, 2] = V0 * xx / (lattice[:, 0] * lattice[:, 1]) * (5.1 * 6.3 * 7.7 / V0)
     return {"vols": vols, "energies": energies, "freqs": freqs, "weights": weights, "qcoords": qcoords,
-            "na": na, "nm": spec.get("nm", 1), "laws": laws, "table": table, "supplied": supplied, "lattice": lattice,
+            "na": na, "nm": spec.get("nm", 1), "pve": spec.get("pve", "f"), "laws": laws, "table": table, "supplied": supplied, "lattice": lattice,
             "vref": float(vols[1]), "cellmass": float(spec.get("cellmass", 100.3887)), "system": system}
 
 
@@ -171,7 +174,13 @@ def phonon_file_text(ds, title="synthetic"):
     nv, nq, npm = ds["freqs"].shape
     L = [f" {title}", " generated by mc.synth", " nv nq np nm na", f" {nv:10d} {nq:10d} {npm:10d} {ds['nm']:10d} {ds['na']:10d}", ""]
     for i in range(nv):
-        L.append(f" P= {0.0:22.14f}      V= {ds['vols'][i]:22.14f}      E= {ds['energies'][i]:22.14f}")
+        pve = ds.get("pve", "f")
+        if pve == "E":        # Fortran / %E style exponent notation
+            L.append(f" P= {0.0:23.15E}      V= {ds['vols'][i]:23.15E}      E= {ds['energies'][i]:23.15E}")
+        elif pve == "plus":   # explicit signs, fewer blanks
+            L.append(f"P= {0.0:+.14f} V= {ds['vols'][i]:+.14f} E= {ds['energies'][i]:+.14f}")
+        else:
+            L.append(f" P= {0.0:22.14f}      V= {ds['vols'][i]:22.14f}      E= {ds['energies'][i]:22.14f}")
         for q in range(nq):
             L.append(" ".join(f"{c:22.16f}" for c in ds["qcoords"][q]))
             for m in range(npm):
@@ -183,7 +192,7 @@ def phonon_file_text(ds, title="synthetic"):
     return "\n".join(L) + "\n"
 
 
-def static_file_text(ds, columns=None, names=None, rows=None, scale=1.0, fmt="%.10f", lattice_header=" lattice_a lattice_b lattice_c", lattice_extra=""):
+def static_file_text(ds, columns=None, names=None, rows=None, scale=1.0, fmt="%.10f", lattice_header=" lattice_a lattice_b lattice_c", lattice_extra="", perturb=None):
     cols = columns or list(ds["supplied"])
     nv = len(ds["vols"])
     rows = list(range(nv)) if rows is None else rows
@@ -191,7 +200,7 @@ def static_file_text(ds, columns=None, names=None, rows=None, scale=1.0, fmt="%.
     L = ["V_0 N cellmass synthetic", f"{ds['vref']:.8f} {nv} {mass}"]
     L.append("V " + " ".join((names[p] if names else "c%d%d" % p) for p in cols))
     for i in rows:
-        L.append(f"{ds['vols'][i]:.8f} " + " ".join(fmt % (scale * ds["table"][p][i]) for p in cols))
+        L.append(f"{ds['vols'][i]:.8f} " + " ".join(fmt % (scale * ds["table"][p][i] + (perturb or {}).get(p, 0.0)) for p in cols))
     if ds["lattice"] is not None:
         L.append(lattice_header)
         for i in rows:
